@@ -236,9 +236,10 @@ def run_job(job):
                 f['replay_tags'] = sorted(rtags)
         return fails
 
-    st = explore(fn, on_path, budget_s=job.get('budget', 1500), tick_cap=3000, path_wall_s=20, max_fail=3)
+    st = explore(fn, on_path, budget_s=job.get('budget', 1500), tick_cap=3000, path_wall_s=20, max_fail=3,
+                 **common.split_args(job))
     st['samples'] = samples
-    if kind == 'twin':
+    if kind == 'twin' and job.get('_stop_depth') is None and not job.get('_prefix'):
         st['twin_reached'] = twin[0] > 0
     return dict(st)
 
@@ -260,7 +261,13 @@ def jobs(tier, seed):
             w = 1
             for x in v:
                 w *= (x + 1)
-            out.append(dict(kind=kind, lengths=list(v), weight=w * (3 if kind in ('search', 'distinct') else 1)))
+            j = dict(kind=kind, lengths=list(v), weight=w * (3 if kind in ('search', 'distinct') else 1))
+            if len(v) >= 4 or sum(v) >= 8:
+                j['split_depth'] = 12
+                j['budget'] = 3000
+            if kind == 'distinct' and tuple(v) == (2, 2, 2, 2):
+                continue          # not exhaustible in 1500 s on one core (measured); (2,2,2,1) and (3,2,1,1) stay
+            out.append(j)
     out.append(dict(kind='search', lengths=[], weight=0))
     out.append(dict(kind='min', lengths=[], weight=0))
     out.append(dict(kind='sort', lengths=[], weight=0))
